@@ -479,4 +479,83 @@ theorem restore_fresh_queries (s s₁ : State K) (h : init (some s.ox) s.oy = .o
   ⟨sliceByIndex_sameSeries _ _ (restore_fresh s s₁ h ops).1 a b stp,
    sliceByValue_sameSeries _ _ (restore_fresh s s₁ h ops).1 va vb stp⟩
 
+/-! ## Non-vacuity, over `ℚ` -/
+
+private def x5 : List ℚ := [0, 1, 2, 3, 4]
+private def y5 : List ℚ := [5, 3, 8, 1, 2]
+private def s5 : State ℚ :=
+  { x := x5, y := y5, rx := x5, ry := y5, ox := x5, oy := y5, callerX := x5, callerY := y5 }
+private def pw2 : ℚ → ℚ := fun t => t * t
+
+example : init (some x5) y5 = .ok s5 := init_some_ok x5 y5 rfl
+example : WF s5 := wf_mk.mpr (by decide +kernel)
+
+/-- a valid program of thirteen operations -/
+private def prog : List (Op ℚ) :=
+  [.appendOne true, .shiftX 1, .scaleX 2, .normX 0 1, .repeat 2, .truncI 1 (some 7),
+   .smooth [1, 2, 3, 4, 5, 6], .trendPoly [1, 2] false, .noise [0, 1, 0, 1, 0, 1], .shiftY 1,
+   .scaleY 3, .normY 0 1, .interpN 11 "linear" []]
+
+example : ValidProgram s5 prog := by
+  simp only [prog, ValidProgram, Valid, and_true, true_and]
+  refine ⟨by decide +kernel, by decide +kernel, by decide +kernel, by decide +kernel,
+    by decide +kernel, by decide +kernel, by decide +kernel, by decide +kernel,
+    .linear, by decide, by simp⟩
+
+/-- … whose result is what `wf_program` promises, and differs from the original -/
+example : (runOps s5 prog).err = none ∧
+    (runOps s5 prog).state.x = [1/5, 3/10, 2/5, 1/2, 3/5, 7/10, 4/5, 9/10, 1, 11/10, 6/5] ∧
+    (runOps s5 prog).state.rx = [1/5, 2/5, 3/5, 4/5, 1, 6/5] ∧
+    (runOps s5 prog).state.ox = [0, 1/4, 1/2, 3/4, 1] ∧
+    (runOps s5 prog).state.oy = [4/7, 2/7, 1, 0, 1/7] ∧
+    (runOps s5 prog).state.y.length = 11 := by decide +kernel
+
+/-- the preconditions with an existential content are satisfiable -/
+example : Valid s5 (.truncV 1 3 false false) :=
+  ⟨1, 4, 1, 4, by decide +kernel, by decide +kernel, by decide, by decide, by decide, by decide⟩
+
+example : Valid s5 (.truncV (1/4) (3/4) true true) :=
+  ⟨1, 4, 1, 4, by decide +kernel, by decide +kernel, by decide, by decide, by decide, by decide⟩
+
+example : Valid s5 (.interpX [0, 1/2, 4] "constant" []) :=
+  ⟨by decide +kernel, by decide, by decide +kernel, by decide +kernel, .constant, by decide, by simp⟩
+
+example : Valid s5 (.interpX [0, 1/2, 4] "cubic" [7, 7, 7]) :=
+  ⟨by decide +kernel, by decide, by decide +kernel, by decide +kernel, .cubic, by decide, by simp⟩
+
+example : Valid s5 (.recreate "linfixed" pw2 3 [1] [1] [0] [0]) := ⟨by decide, by decide⟩
+
+example : Valid s5 (.recreateExt 3 (List.replicate 13 0)) := ⟨by decide, by decide⟩
+
+private def fp5 : FixedPoints ℚ :=
+  { inX := [0, 1, 2, 3, 4], idxX := [0, 1, 2, 3, 4], idxRef := [0, 1, 2, 3, 4] }
+
+private theorem fp5_ok : fixedPoints x5 x5 none none "closest" = .ok fp5 := by
+  have hu : uniqueK ([0, 1, 2, 3, 4] : List ℚ) = [0, 1, 2, 3, 4] := by
+    unfold uniqueK
+    rw [List.mergeSort_of_pairwise (by decide +kernel)]
+    decide +kernel
+  rw [fixedPoints_default_eq x5 x5 "closest" [0, 1, 2, 3, 4] [0, 1, 2, 3, 4] (by decide +kernel)
+    (by decide +kernel) (by rw [hu]; decide +kernel), hu,
+    show whereIsin x5 [0, 1, 2, 3, 4] = [0, 1, 2, 3, 4] by decide +kernel]
+  rfl
+
+example : Valid s5 (.integralMatch pw2 none none "closest" "trapezoid" "trapezoid") := by
+  refine ⟨y5, ?_⟩
+  show matchRef pw2 x5 y5 x5 y5 none none "closest" "trapezoid" "trapezoid" = _
+  rw [matchRef_eq pw2 x5 y5 x5 y5 none none "closest" "trapezoid" "trapezoid" fp5 .trapezoid
+    .trapezoid fp5_ok (by decide) (by decide)]
+  decide +kernel
+
+/-- `restore_original` after the program: working and reference series are the (renormalised)
+original again, as for a new object (regression for a repaired defect: the reference is reset too) -/
+example : (step (runOps s5 prog).state .restore).state.x = [0, 1/4, 1/2, 3/4, 1] ∧
+    (step (runOps s5 prog).state .restore).state.rx = [0, 1/4, 1/2, 3/4, 1] ∧
+    (step (runOps s5 prog).state .restore).state.ry = (runOps s5 prog).state.oy ∧
+    (step (runOps s5 prog).state .restore).state.callerX = x5 := by decide +kernel
+
+/-- "finite values": normalising the ordinates is defined in `s5` because they are not constant -/
+example : (0 : ℚ) < maxTo (fnOf y5) (y5.length - 1) - minTo (fnOf y5) (y5.length - 1) :=
+  normY_defined y5 0 1 (by decide) (by decide) (by decide +kernel)
+
 end TWV.C09
